@@ -1,5 +1,7 @@
 import CentrifugeVerif.DriverLib
 import CentrifugeVerif.Model.SubProto
+import CentrifugeVerif.Model.SubProtoSpec
+import Std.Data.HashSet
 /-!
 Trace validation driver shared by C04 / C05 / C07.
 
@@ -13,11 +15,12 @@ The driver keeps the set of model states that are consistent with the events see
 * `arrive A tag` keeps the states in which thread `A` stands in front of the external call `tag`;
   `pass A tag outcome` takes that step with the outcome the harness injected; `ev A bsub` is the
   (non-parking) `Broker.Subscribe` call inside `addSubscription`; `done A ret` requires `A` finished;
-* an `arrive … tmolog` event means a wait-gate timeout fired: only there the closure may also take `tmo` steps;
+* the wait-gate timeout `tmo` of a waiting thread may fire at any time, so it is part of the closure (a
+  timeout that did not happen leads to states the following `obs` / `arrive` events discard);
 * `obs σ` (taken when every goroutine is parked or blocked) keeps the quiescent states whose
   abstract projection prints exactly as `σ`; `final σ` requires a settled state printing as `σ`.
 
-Output: `accept` when the set never became empty, otherwise `reject i=<event index> …`.
+Output: `accept jl=<join/leave log with generations>` when the set never became empty, otherwise `reject i=<event index> …`.
 -/
 namespace CentrifugeVerif.SubProto.Driver
 open CentrifugeVerif DriverLib CentrifugeVerif.SubProto
@@ -156,12 +159,12 @@ def stepEvent (e : Env) (cs : List Cfg) (ev : String) : Option (List Cfg) :=
     | some k =>
       let chI := (chanIdx e ch).getD 0
       let o : Opts := ⟨pj.contains 'p', pj.contains 'j'⟩
-      some <| (closure false cs).filterMap fun c =>
+      some <| (closure true cs).filterMap fun c =>
         match next c.st (.spawn k chI o) with
         | some s' => some { st := s', names := (a, c.st.nextTid) :: c.names }
         | none => none
   | ["arrive", a, tag, _ch] =>
-    some <| (closure (tag == "tmolog") cs).filter fun c =>
+    some <| (closure true cs).filter fun c =>
       match resolve c a with
       | some (_, t) => tagOf c.st t == .gate tag
       | none => false
@@ -169,7 +172,7 @@ def stepEvent (e : Env) (cs : List Cfg) (ev : String) : Option (List Cfg) :=
     match parseOutcome out with
     | none => none
     | some o =>
-      some <| (closure false cs).filterMap fun c =>
+      some <| (closure true cs).filterMap fun c =>
         match resolve c a with
         | some (tid, t) =>
           if tagOf c.st t == .gate tag then
@@ -182,7 +185,7 @@ def stepEvent (e : Env) (cs : List Cfg) (ev : String) : Option (List Cfg) :=
     match parseOutcome out with
     | none => none
     | some o =>
-      some <| (closure false cs).filterMap fun c =>
+      some <| (closure true cs).filterMap fun c =>
         match resolve c a with
         | some (tid, t) =>
           if tagOf c.st t == .obs "bsub" then
@@ -192,37 +195,111 @@ def stepEvent (e : Env) (cs : List Cfg) (ev : String) : Option (List Cfg) :=
           else none
         | none => none
   | ["done", a, ret] =>
-    some <| (closure false cs).filter fun c =>
+    some <| (closure true cs).filter fun c =>
       match resolve c a with
       | some (_, t) => t.pc == .done && expectedRet t == ret
       | none => false
   | ["anon", _] => some cs
   | ["hold"] =>
-    some <| (closure false cs).filterMap fun c =>
+    some <| (closure true cs).filterMap fun c =>
       if c.st.connectMu.isNone then some { c with st := { c.st with connectMu := some holdTid } } else none
   | ["unhold"] =>
-    some <| (closure false cs).filterMap fun c =>
+    some <| (closure true cs).filterMap fun c =>
       if c.st.connectMu == some holdTid then some { c with st := { c.st with connectMu := none } } else none
   | "obs" :: rest =>
     let σ := " ".intercalate rest
-    some <| (closure false cs).filter fun c => quiescent c && project e c.st == σ
+    some <| (closure true cs).filter fun c => quiescent c && project e c.st == σ
   | "final" :: rest =>
     let σ := " ".intercalate (rest.takeWhile (· ≠ "|"))
-    some <| (closure false cs).filter fun c => settled c && project e c.st == σ
+    some <| (closure true cs).filter fun c => settled c && project e c.st == σ
   | _ => none
 
+def showJL (s : State) : String :=
+  ",".intercalate <| s.log.filterMap fun ev => match ev with
+    | .join ch g => some s!"J{ch}:{g}"
+    | .leave ch g => some s!"L{ch}:{g}"
+    | _ => none
+
 def runEvents (e : Env) : List String → Nat → List Cfg → String
-  | [], _, _ => "accept"
+  | [], _, cs => match cs with
+    | c :: _ => "accept jl=" ++ showJL c.st
+    | [] => "accept jl="
   | ev :: rest, i, cs =>
     match stepEvent e cs ev with
     | none => s!"reject i={i} malformed ev={ev}"
     | some [] =>
-      let before := closure false cs
+      let before := closure true cs
       let sample := match before with
         | c :: _ => project e c.st ++ " panicked=" ++ toString c.st.panicked
         | [] => "<empty>"
       s!"reject i={i} ev={ev} cands={before.length} sample={sample}"
     | some cs' => runEvents e rest (i + 1) cs'
+
+/-! ### bounded explorer: all interleavings of a fixed set of operations -/
+
+def allOutcomes (tmo fails : Bool) (t : Thread) : List Outcome :=
+  [.ok] ++ (if fails then [.fail, .failDisc] else []) ++ (if tmo then [.tmo] else []) ++ t.pending.map .pick
+
+def succs (tmo fails : Bool) (s : State) : List (Label × State) :=
+  s.threads.foldl (init := []) fun acc (tid, t) =>
+    (allOutcomes tmo fails t).foldl (init := acc) fun acc o =>
+      match next s (.step tid o) with
+      | some s' => (.step tid o, s') :: acc
+      | none => acc
+
+structure ExploreRes where
+  states : Nat := 0
+  settled : Nat := 0
+  deadlocks : Nat := 0
+  bad : List (String × List Label) := []   -- first violation per predicate
+
+def showOutcome : Outcome → String
+  | .ok => "ok" | .fail => "fail" | .failDisc => "faildisc" | .tmo => "tmo" | .pick ch => s!"pick{ch}"
+
+def showLabel : Label → String
+  | .spawn _ ch _ => s!"spawn:{ch}"
+  | .step t o => s!"{t}.{showOutcome o}"
+
+def noteBad (r : ExploreRes) (name : String) (path : List Label) : ExploreRes :=
+  if r.bad.any (·.1 == name) then r else { r with bad := (name, path.reverse) :: r.bad }
+
+partial def exploreLoop (tmo fails : Bool) (limit : Nat) (queue : List (State × List Label))
+    (next' : List (State × List Label)) (seen : Std.HashSet State) (r : ExploreRes) : ExploreRes :=
+  match queue with
+  | [] => if next'.isEmpty || r.states ≥ limit then r else exploreLoop tmo fails limit next' [] seen r
+  | (s, path) :: rest =>
+    let r := { r with states := r.states + 1 }
+    let r := if s.panicked then noteBad r "panic" path else r
+    let ss := succs tmo fails s
+    let r :=
+      if settledB s then
+        let r := { r with settled := r.settled + 1 }
+        let r := if c04Ok s then r else noteBad r "c04" path
+        let r := if c05Ok s then r else noteBad r "c05" path
+        let r := if c07CountOk s then r else noteBad r "c07count" path
+        if c07Ok s then r else noteBad r "c07" path
+      else if ss.isEmpty then noteBad { r with deadlocks := r.deadlocks + 1 } "deadlock" path
+      else r
+    let (next', seen) := ss.foldl (init := (next', seen)) fun (nq, sn) (l, s') =>
+      if sn.contains s' then (nq, sn) else ((s', l :: path) :: nq, sn.insert s')
+    exploreLoop tmo fails limit rest next' seen r
+
+/-- `explore tmo=0|1 fails=0|1 limit=N kind:ch:pj …` -/
+def explore (ws : List String) : String :=
+  let tmo := kv ws "tmo" == some "1"
+  let fails := kv ws "fails" == some "1"
+  let limit := (kvNat ws "limit").getD 200000
+  let specs := ws.filter fun w => (w.splitOn ":").length == 3
+  let s0 := specs.foldl (init := State.init) fun s w =>
+    match w.splitOn ":" with
+    | [k, ch, pj] =>
+      match parseKind k with
+      | some kind => (next s (.spawn kind (ch.toNat?.getD 0) ⟨pj.contains 'p', pj.contains 'j'⟩)).getD s
+      | none => s
+    | _ => s
+  let r := exploreLoop tmo fails limit [(s0, [])] [] (Std.HashSet.emptyWithCapacity.insert s0) {}
+  let bad := r.bad.map fun (n, p) => s!"{n}=[{" ".intercalate (p.map showLabel)}]"
+  s!"states={r.states} settled={r.settled} deadlocks={r.deadlocks} " ++ " ".intercalate bad.reverse
 
 def step (line : String) : String :=
   match words line with
@@ -230,6 +307,7 @@ def step (line : String) : String :=
     let e : Env := { chans := chans.splitOn "," }
     let evs := ((" ".intercalate rest).splitOn ";").map (fun x => (x.trimAscii).toString)
     runEvents e evs 0 [{ st := State.init, names := [] }]
+  | "explore" :: rest => explore rest
   | _ => "bad-op"
 
 def main : IO Unit := runPure step
